@@ -97,6 +97,15 @@ fn expected(dsl: &str, source: &str, o: &Opts) -> Result<Expected, LibPanic> {
     }
 }
 
+/// A quarter of the values get blanks in front or behind: they belong to the value.
+fn pad(t: &mut Tape, v: String) -> String {
+    match t.choose(8) {
+        0 => format!(" {}", v),
+        1 => format!("{} ", v),
+        _ => v,
+    }
+}
+
 pub fn case(tape: &[u32]) -> CaseOutcome {
     let (aux, main) = split_tape(tape);
     let mut t = Tape::new(&aux);
@@ -140,11 +149,24 @@ pub fn case(tape: &[u32]) -> CaseOutcome {
         // syntax errors that show only as MISSING tokens
         source = pysrc::MISSING_ONLY[t.choose(pysrc::MISSING_ONLY.len())].to_string();
     }
+    // line endings and the end of the file belong to the source as well
+    match t.choose(8) {
+        0 => source = source.replace('\n', "\r\n"),
+        1 => {
+            while source.ends_with('\n') {
+                source.pop();
+            }
+        }
+        2 => source.push_str("\n\n"),
+        _ => {}
+    }
     // every declared global gets a string value most of the time
     let mut globals: Vec<(String, String)> = vec![];
     for name in &declared {
         if t.chance(5, 6) {
-            globals.push((name.to_string(), t.pick(&["", "a", "foo/bar.py", "k=v", "a b", "é", "x=y=z", "=", "a,b", ",", "x, y=z", "-v", "--json", "'q'", "\"dq\"", "a\nb", "{}", "$HOME", " lead", "trail ", "  ", "\tx\t"]).to_string()));
+            let base = t.pick(&["", "a", "foo/bar.py", "k=v", "a b", "é", "x=y=z", "=", "a,b", ",", "x, y=z", "-v", "--json", "'q'", "\"dq\"", "a\nb", "{}", "$HOME", " lead", "trail ", "  ", "\tx\t"]).to_string();
+            let padded = pad(&mut t, base);
+            globals.push((name.to_string(), padded));
         }
     }
     if t.chance(1, 10) {
